@@ -8,7 +8,7 @@
                       /\ hdr_ok d           header items: one #OFFSET, one #BPMS, both before any #STOPS, numbers parse.
    Every clause excludes a corner on which reamber's reader and the format disagree; each corner is a _refuted theorem
    with a concrete witness in Proofs/SMReadWhole.v. *)
-From Coq Require Import String ZArith QArith List Bool.
+From Coq Require Import String ZArith QArith Qround List Bool.
 From RV Require Import Base.PyNum Timing.Snapper Timing.Snap Timing.TimingMap Timing.Reseat Timing.Integrate
   Formats.SMText Formats.SM Formats.SMSpec.
 Import ListNotations.
@@ -94,6 +94,13 @@ Definition c02_domb (txt : text) : bool :=
   | Some d => c02_dom d && dialect2 txt && hdr_ok d
   | None => false
   end.
+
+(* tempo changes on measure lines: every #BPMS beat is a multiple of 4 (then the reader does not reseat: the chart's tempo
+   list is the file's tempo list, row by row - C02_sm_read_tempo_list_on_lines) *)
+Definition is_mult4 (x : Q) : bool := Qeq_bool (x / 4) (inject_Z (Qfloor (x / 4))).
+Definition tempo_on_lines (d : dfile) : bool := forallb (fun tp : Q * Q * Q => is_mult4 (fst (fst tp))) (d_tempo d).
+Definition sm_tempo_on_lines (txt : text) : bool :=
+  match sm_denote txt with Some d => tempo_on_lines d | None => false end.
 
 (* table obligation used to derive the C10 timing domain from the 1/48 grid: every k/48 is a snapper fraction *)
 Definition grid48_in_table (tbl : list Q) : bool :=
